@@ -56,21 +56,12 @@ def drainArrow (n : Node) (st : St) : Node × St :=
     else (n, st)
   | n => (n, st)
 
-/-- `util::decouple_v_models` -/
+/-- `util::decouple_v_models`: every array entry becomes a `v-model` attribute in the array form -/
 def decoupleVModels (elems : List Node) : List Node :=
   elems.filterMap fun el =>
     match el with
     | .mk .arg _ [.mk .array _ [.mk .list _ inner]] =>
-      let argument : Option String :=
-        match (inner[1]? : Option Node) with
-        | some (.mk .arg _ [.mk .str (s :: _) _]) => some s
-        | _ => none
-      let inner := if argument.isSome then inner.take 1 ++ inner.drop 2 else inner
-      let name :=
-        match argument with
-        | some a => .mk .jsxNsName [] [nIdentName "v-model", nIdentName a]
-        | none => nIdentName "v-model"
-      some (.mk .jsxAttr [] [name, .mk .jsxExprContainer [] [nArray inner]])
+      some (.mk .jsxAttr [] [nIdentName "v-model", .mk .jsxExprContainer [] [nArray inner]])
     | _ => none
 
 def findVModels : List Node → Nat → Option Nat
